@@ -573,6 +573,7 @@ func corrProg(o corrOpts) *res.Summary {
 			compareModule(sum, label, dir, cfg, []progOutcome{oc}, src)
 			if o.extra["noann"] == "1" {
 				sum.Count("annotation-free-packages")
+				sum.DistinctNontrivial++ // every package here is salted with near-miss comments at all attachment sites
 				if len(oc.impl) > 0 || len(oc.implAnn) > 0 {
 					var det []string
 					for _, k := range oc.impl {
